@@ -125,3 +125,73 @@ Definition zone_writable (ts : Z) (z : timezone) : Prop :=
   strictly_increasing (map tr_time (transitions z)) /\
   zlen (transitions z) <= 100000 /\
   leap_seconds z = [] /\ extra_rule z = None.
+
+(** ** The complete layout (RFC 8536 section 3.2): leap-second records, the two indicator arrays
+    and, for versions 2 and 3, the footer carrying the rule.
+
+    The standard/wall and UT/local indicators are not part of the reader's zone value (it
+    validates and drops them), so the writer takes them as two extra arguments, one flag per
+    local time type or no array at all.  "UT implies standard" is the only legal combination
+    constraint of the format. *)
+Definition enc_flag (b : bool) : Z := if b then 1 else 0.
+Definition tzif_header_full (ver : Z) (isutcnt isstdcnt leapcnt timecnt typecnt charcnt : Z) : bytes :=
+  [84; 90; 105; 102; ver] ++ repeat 0 15%nat
+  ++ be32 isutcnt ++ be32 isstdcnt ++ be32 leapcnt ++ be32 timecnt ++ be32 typecnt ++ be32 charcnt.
+Definition enc_leap (ts : Z) (l : leap) : bytes := be_time ts (lp_time l) ++ be32 (lp_corr l).
+Definition tzif_block_full (ver ts : Z) (z : timezone) (std ut : list bool) : bytes :=
+  tzif_header_full ver (zlen ut) (zlen std) (zlen (leap_seconds z)) (zlen (transitions z))
+                   (zlen (local_time_types z)) (zlen (desig_table (local_time_types z)))
+  ++ flat_map (fun t => be_time ts (tr_time t)) (transitions z)
+  ++ map tr_idx (transitions z)
+  ++ flat_map enc_type (combine (local_time_types z) (desig_indices (local_time_types z) 0))
+  ++ desig_table (local_time_types z)
+  ++ flat_map (enc_leap ts) (leap_seconds z)
+  ++ map enc_flag std
+  ++ map enc_flag ut.
+
+(* footer: newline, the rule as a TZ string (nothing when the zone has none), newline; the
+   extended rule times of version 3 are printed with three hour digits *)
+Definition footer_ext (ver : Z) : bool := ver =? 51.
+Definition footer_body (ver : Z) (z : timezone) : bytes :=
+  match extra_rule z with Some r => print_rule r (footer_ext ver) | None => [] end.
+Definition tzif_footer (ver : Z) (z : timezone) : bytes := [10] ++ footer_body ver z ++ [10].
+
+Definition write_tzif_v1_full (z : timezone) (std ut : list bool) : bytes := tzif_block_full 0 4 z std ut.
+(* version 2 / 3: a complete 32-bit block for [z32] (any zone the 32-bit layout can lay out: the
+   reader skips it; [slim_zone] for the minimal file), the 64-bit block, the footer *)
+Definition write_tzif_v23_full (ver : Z) (z32 : timezone) (std32 ut32 : list bool)
+                               (z : timezone) (std ut : list bool) : bytes :=
+  tzif_block_full ver 4 z32 std32 ut32 ++ tzif_block_full ver 8 z std ut ++ tzif_footer ver z.
+
+(** what the layout can carry *)
+Definition time_fits (ts : Z) (t : Z) : Prop := (if ts =? 4 then in_i32 t else in_i64 t) = true.
+(* both arrays absent or one flag per type; a UT flag only on a type that also has the standard flag *)
+Definition indicators_ok (types : list ltt) (std ut : list bool) : Prop :=
+  (std = [] \/ zlen std = zlen types) /\ (ut = [] \/ zlen ut = zlen types) /\
+  forall i, nth i ut false = true -> nth i std false = true.
+(* RFC 8536 3.2: the first occurrence is not negative and its correction is +1 or -1; later
+   occurrences are at least 28 days minus one second after the previous one and the correction
+   changes by exactly one *)
+Fixpoint leaps_spaced (l : list leap) : Prop :=
+  match l with
+  | a :: ((b :: _) as r) =>
+      lp_time a + 2419199 <= lp_time b /\ (lp_corr b = lp_corr a + 1 \/ lp_corr b = lp_corr a - 1) /\ leaps_spaced r
+  | _ => True
+  end.
+Definition leaps_writable (ts : Z) (l : list leap) : Prop :=
+  Forall (fun p => time_fits ts (lp_time p) /\ in_i32 (lp_corr p) = true) l /\
+  match l with [] => True | a :: _ => 0 <= lp_time a /\ (lp_corr a = 1 \/ lp_corr a = -1) end /\
+  leaps_spaced l.
+(* counts are 32-bit fields; an abbreviation index and a type index are one byte *)
+Definition block_layout (ts : Z) (z : timezone) (std ut : list bool) : Prop :=
+  local_time_types z <> [] /\ zlen (desig_table (local_time_types z)) <= 256 /\
+  zlen (transitions z) <= 4294967295 /\ zlen (leap_seconds z) <= 4294967295 /\
+  (std = [] \/ zlen std = zlen (local_time_types z)) /\ (ut = [] \/ zlen ut = zlen (local_time_types z)).
+Definition zone_writable_full (ts : Z) (z : timezone) (std ut : list bool) : Prop :=
+  local_time_types z <> [] /\ Forall type_writable (local_time_types z) /\
+  zlen (desig_table (local_time_types z)) <= 256 /\
+  Forall (fun t => time_fits ts (tr_time t) /\ 0 <= tr_idx t < zlen (local_time_types z)) (transitions z) /\
+  strictly_increasing (map tr_time (transitions z)) /\
+  zlen (transitions z) <= 4294967295 /\
+  leaps_writable ts (leap_seconds z) /\ zlen (leap_seconds z) <= 4294967295 /\
+  indicators_ok (local_time_types z) std ut.
